@@ -370,6 +370,14 @@ inductive COp
   | endTxOld (tx : Nat) (handles : List Nat)
   | advance (d : Nat)
   | serializeRestore
+  /-- `release_orphaned_locks(partition_start)`; `active` = the coordinator's pending ids -/
+  | sweep (active : List Nat) (partitionStart : Nat)
+  /-- `WaitForGraph::clear` -/
+  | gClear
+  /-- a coordinator loaded from its saved state starts with `WaitForGraph::new()` -/
+  | gNew
+  /-- `WaitForGraph::cleanup_stale_edges(ttl)` -/
+  | gStale (ttl : Nat)
 deriving Repr
 
 structure CSys where
@@ -398,6 +406,10 @@ def cstep (s : CSys) : COp → CSys
   | .endTxOld tx hs => let r := endTxOld s.t s.g tx hs; { s with t := r.1, g := r.2 }
   | .advance d => { s with now := s.now + d }
   | .serializeRestore => { s with t := restore (serialize s.t) s.t.nextHandle }
+  | .sweep active ps => let r := orphanSweep s.t s.g active ps; { s with t := r.1, g := r.2.1 }
+  | .gClear => { s with g := clearGraph s.g }
+  | .gNew => { s with g := WaitGraph.empty 0 }
+  | .gStale ttl => { s with g := (cleanupStaleEdges s.g s.now ttl).1 }
 
 def crun (ops : List COp) (s : CSys) : CSys := ops.foldl cstep s
 
@@ -502,6 +514,13 @@ theorem pairInv_step (s : CSys) (op : COp) (hi : PairInv s) : PairInv (cstep s o
     exact ⟨this.1, this.2.1, this.2.2⟩
   | advance d => exact ⟨hi.nd, hi.nd2, hi.tr⟩
   | serializeRestore => simp only [cstep, restore_serialize]; exact ⟨hi.nd, hi.nd2, hi.tr⟩
+  | sweep active ps =>
+    simp only [cstep, orphanSweep]
+    have := foldl_sweepKey_nodup (orphanKeys s.t active ps) s.t hi.nd hi.nd2
+    exact ⟨this.1, this.2, transpose_foldl_removeTransaction _ _ hi.tr⟩
+  | gClear => exact ⟨hi.nd, hi.nd2, transpose_empty _⟩
+  | gNew => exact ⟨hi.nd, hi.nd2, transpose_empty _⟩
+  | gStale ttl => exact ⟨hi.nd, hi.nd2, transpose_foldl_removeTransaction _ _ hi.tr⟩
 
 theorem pairInv_run (ops : List COp) (s : CSys) (hi : PairInv s) : PairInv (crun ops s) := by
   induction ops generalizing s with
@@ -542,5 +561,143 @@ theorem releaseHandles_locks (hs : List Nat) (t : LockTable) (g : WaitGraph)
     refine ⟨h3, ?_⟩
     simp only [List.mem_cons, not_or]
     exact ⟨h4, h2⟩
+
+/-! ### the lock-table component of a coordinator-side run is a lock-table run -/
+
+theorem conflicts_nil_iff (locks : List (Nat × KeyLock)) (now tx : Nat) (keys : List Nat) :
+    conflicts locks now tx keys = [] ↔ firstConflict locks now tx keys = none := by
+  induction keys with
+  | nil => simp [conflicts, firstConflict]
+  | cons k ks ih =>
+    simp only [conflicts, firstConflict]
+    cases aGet locks k with
+    | none => exact ih
+    | some l =>
+      by_cases hc : (!l.isExpired now && l.tx != tx) = true
+      · simp [hc]
+      · simp only [hc, Bool.false_eq_true, ↓reduceIte]; exact ih
+
+/-- `try_lock_with_wait_tracking` changes the lock table exactly as `try_lock` does -/
+theorem tryLockWait_table (t : LockTable) (g : WaitGraph) (now wnow tx : Nat) (keys : List Nat) (prio : Option Nat) :
+    (tryLockWait t g now wnow tx keys prio).1 = (tryLock t now tx keys).1 := by
+  unfold tryLockWait
+  simp only
+  by_cases e : (conflicts t.locks now tx keys).isEmpty
+  · simp only [e, ↓reduceIte]
+  · simp only [e, Bool.false_eq_true, ↓reduceIte]
+    have : firstConflict t.locks now tx keys ≠ none := by
+      intro h
+      rw [← conflicts_nil_iff] at h
+      simp [h] at e
+    unfold tryLock
+    cases hc : firstConflict t.locks now tx keys with
+    | none => exact absurd hc this
+    | some c => rfl
+
+/-- …and is granted exactly when `try_lock` is -/
+theorem tryLockWait_granted_iff (t : LockTable) (g : WaitGraph) (now wnow tx : Nat) (keys : List Nat) (prio : Option Nat) :
+    (∃ h, (tryLockWait t g now wnow tx keys prio).2.2 = .ok h) ↔ firstConflict t.locks now tx keys = none := by
+  rw [← conflicts_nil_iff]
+  unfold tryLockWait
+  simp only
+  by_cases e : (conflicts t.locks now tx keys).isEmpty
+  · simp only [e, ↓reduceIte]
+    exact ⟨fun _ => List.isEmpty_iff.mp e, fun _ => ⟨_, rfl⟩⟩
+  · simp only [e, Bool.false_eq_true, ↓reduceIte]
+    constructor
+    · rintro ⟨h, hh⟩; cases hh
+    · intro h; simp [h] at e
+
+theorem releaseByHandleWait_table (t : LockTable) (g : WaitGraph) (h : Nat) :
+    (releaseByHandleWait t g h).1 = releaseByHandle t h := by
+  unfold releaseByHandleWait
+  simp only
+  split <;> rfl
+
+theorem releaseHandles_table (hs : List Nat) (t : LockTable) (g : WaitGraph) :
+    (releaseHandles t g hs).1 = hs.foldl releaseByHandle t := by
+  unfold releaseHandles
+  induction hs generalizing t g with
+  | nil => rfl
+  | cons a r ih =>
+    simp only [List.foldl_cons]
+    rw [ih, releaseByHandleWait_table]
+
+/-- the lock-table operations a coordinator-side operation performs -/
+def cproj : COp → List Op
+  | .lockW tx keys _ => [.tryLock tx keys]
+  | .relHW h => [.releaseByHandle h]
+  | .cleanW => [.cleanupExpired]
+  | .lock tx keys => [.tryLock tx keys]
+  | .rel tx => [.release tx]
+  | .relH h => [.releaseByHandle h]
+  | .clean => [.cleanupExpired]
+  | .gAdd _ _ _ => []
+  | .gRm _ => []
+  | .gRmW _ _ => []
+  | .endTx _ hs => hs.map .releaseByHandle
+  | .endTxOld _ hs => hs.map .releaseByHandle
+  | .advance d => [.advance d]
+  | .serializeRestore => [.serializeRestore]
+  | .sweep active ps => [.sweep active ps]
+  | .gClear => []
+  | .gNew => []
+  | .gStale _ => []
+
+theorem run_append (a b : List Op) (s : Sys) : run (a ++ b) s = run b (run a s) := by
+  simp [run, List.foldl_append]
+
+theorem run_releaseByHandles_t (hs : List Nat) (s : Sys) :
+    (run (hs.map .releaseByHandle) s).t = hs.foldl releaseByHandle s.t ∧
+    (run (hs.map .releaseByHandle) s).now = s.now := by
+  induction hs generalizing s with
+  | nil => exact ⟨rfl, rfl⟩
+  | cons a r ih =>
+    have := ih (step s (.releaseByHandle a))
+    simp only [List.map_cons, run, List.foldl_cons] at this ⊢
+    exact this
+
+theorem cstep_table (s : CSys) (op : COp) (gs : Sys) (ht : gs.t = s.t) (hn : gs.now = s.now) :
+    (run (cproj op) gs).t = (cstep s op).t ∧ (run (cproj op) gs).now = (cstep s op).now := by
+  cases op with
+  | lockW tx keys prio =>
+    simp only [cproj, run, List.foldl_cons, List.foldl_nil, cstep, tryLockWait_table, step, ht, hn]
+    cases h : tryLock s.t s.now tx keys with
+    | mk t' r => cases r <;> simp
+  | lock tx keys =>
+    simp only [cproj, run, List.foldl_cons, List.foldl_nil, cstep, step, ht, hn]
+    cases h : tryLock s.t s.now tx keys with
+    | mk t' r => cases r <;> simp
+  | relHW h => simp [cproj, run, cstep, step, releaseByHandleWait_table, ht, hn]
+  | cleanW => simp [cproj, run, cstep, step, cleanupExpiredWait, ht, hn]
+  | rel tx => simp [cproj, run, cstep, step, ht, hn]
+  | relH h => simp [cproj, run, cstep, step, ht, hn]
+  | clean => simp [cproj, run, cstep, step, ht, hn]
+  | gAdd w h prio => simp [cproj, run, cstep, ht, hn]
+  | gRm tx => simp [cproj, run, cstep, ht, hn]
+  | gRmW w h => simp [cproj, run, cstep, ht, hn]
+  | endTx tx hs =>
+    have := run_releaseByHandles_t hs gs
+    simp only [cproj, cstep, endTx, releaseHandles_table, this, ht, hn, and_self]
+  | endTxOld tx hs =>
+    have := run_releaseByHandles_t hs gs
+    simp only [cproj, cstep, endTxOld, releaseHandles_table, this, ht, hn, and_self]
+  | advance d => simp [cproj, run, cstep, step, ht, hn]
+  | serializeRestore => simp [cproj, run, cstep, step, ht, hn]
+  | sweep active ps => simp [cproj, run, cstep, step, orphanSweep, ht, hn]
+  | gClear => simp [cproj, run, cstep, ht, hn]
+  | gNew => simp [cproj, run, cstep, ht, hn]
+  | gStale ttl => simp [cproj, run, cstep, ht, hn]
+
+/-- **Refinement**: along any sequence of coordinator-side operations the lock table and the clock
+    evolve exactly as under the projected sequence of plain lock-table operations -/
+theorem crun_table (ops : List COp) (s : CSys) (gs : Sys) (ht : gs.t = s.t) (hn : gs.now = s.now) :
+    (run (ops.flatMap cproj) gs).t = (crun ops s).t ∧ (run (ops.flatMap cproj) gs).now = (crun ops s).now := by
+  induction ops generalizing s gs with
+  | nil => exact ⟨ht, hn⟩
+  | cons op r ih =>
+    simp only [List.flatMap_cons, run_append, crun, List.foldl_cons]
+    have := cstep_table s op gs ht hn
+    exact ih (cstep s op) (run (cproj op) gs) this.1 this.2
 
 end Neumann.Locks
